@@ -179,7 +179,7 @@ class C07(InterpProp):
         if hs is not None:
             subs = []
             # set iteration order depends on the string hash seed: several seeds for charts with deep history
-            for k in range(3 if case.payload.get('deep') else 1):
+            for k in range(3 if case.payload.get('deep') else 2):
                 env = dict(os.environ, PYTHONHASHSEED=str(hs + 7919 * k))
                 p = subprocess.run([sys.executable, '-m', 'harness.impl_sub'], input=json.dumps(case.payload),
                                    capture_output=True, text=True, env=env, cwd=engine.VERIF, timeout=120)
@@ -273,10 +273,19 @@ class C07(InterpProp):
                 res.features.add('err:' + a['r']['err']['class'])
         if '_sub' in obs:
             res.features.add('hashseed-rerun')
-            for sub in obs.get('_subs', [obs['_sub']]):
-                d = engine.diff(self.full_view({'obs': obs['obs']}), self.full_view(sub))
+            subs = obs.get('_subs', [obs['_sub']])
+            # (the sub-processes run under seeds fixed by the case: comparing them with one another is reproducible,
+            #  comparing them with the run in this process — whose seed is whatever it is — is one more chance)
+            for other in subs[1:]:
+                d = engine.diff(self.full_view(subs[0]), self.full_view(other))
                 if d:
                     res.violations.append('re-run under another PYTHONHASHSEED (base %s) differs: %s' % (case.payload['hashseed'], d))
                     break
+            else:
+                for sub in subs:
+                    d = engine.diff(self.full_view({'obs': obs['obs']}), self.full_view(sub))
+                    if d:
+                        res.violations.append('re-run under another PYTHONHASHSEED (base %s) differs: %s' % (case.payload['hashseed'], d))
+                        break
         if not res.features:
             res.features.add('no-feature')
